@@ -41,6 +41,19 @@ def build_case(Ls, Rs, opts):
     tab = run.leaf_table()
     if not all(float_ok(v) for v in tab.values()):
         return None
+    # the similarity-oracle laws the theorems take as premises, checked on every value seen
+    from math import sqrt
+    laws = []
+    for (a, b), v in tab.items():
+        if not (0 <= v <= 1):
+            laws.append("leaf ratio %r outside [0,1] for %r / %r" % (v, a, b))
+        if a == b and v != 1.0:
+            laws.append("leaf ratio of equal texts is %r, not 1.0 (%r)" % (v, a))
+        for n in (1, 2, 3, 7):
+            if not sqrt((v ** 2 + 0.0 ** 2) / 2) <= sqrt((1.0 ** 2 + 0.0 ** 2) / 2):
+                laws.append("combine(m,0,n) exceeds combine(1,0,n) for m=%r" % v)
+            if sqrt((1.0 ** 2 + (n / n) ** 2) / 2) != 1.0:
+                laws.append("combine(1,n,n) != 1.0 for n=%d" % n)
     matches = run.match()
     # C07 oracle on the matching, evaluated NOW (the script generation below mutates the left copy)
     from harness import oracles
@@ -53,7 +66,7 @@ def build_case(Ls, Rs, opts):
         # the implementation emitted a path that does not select exactly one node: cannot be
         # named by id; reported by the C04 oracle, not a correspondence case
         return {"term": None, "desc": desc, "matches": matches, "raw": list(run.raw), "path_problem": "%s %s" % ex.args,
-                "run": run, "c07": c07}
+                "run": run, "c07": c07, "laws": laws}
     except Exception as ex:  # noqa
         sterm, raw = "None", "exc:" + type(ex).__name__
     F = opts.get("F")
@@ -82,7 +95,7 @@ def build_case(Ls, Rs, opts):
         from harness.patcher_corr import coq_gaction
         gt = "(Some %s)" % coq_list([coq_gaction(a) for a in raw])
     term = "(%s, %s, %s)" % (term, pet, gt)
-    return {"term": term, "desc": desc, "matches": matches, "raw": raw, "run": run, "c07": c07}
+    return {"term": term, "desc": desc, "matches": matches, "raw": raw, "run": run, "c07": c07, "laws": laws}
 
 
 def in_model_domain(desc):
